@@ -13,4 +13,6 @@ def run(rep, fb, tier):
     builder.rule_builder_table(rep, fb)
     builder.rule_arraybuilder_update(rep, fb)
     forward.rule_same_name(rep, fb, select=lambda f: f["name"] in ("tojson_part", "tojson", "tojson_string", "tojson_boolean", "tojson_integer", "tojson_real", "tojson_complex") or f["file"].endswith("io/json.cpp"), floor=30, name="FORWARD.same-name:json")
+    from ..rules import lints as _l
+    _l.rule_string_equality(rep, fb)
     rep.units = fb.units
